@@ -10,7 +10,7 @@ from ..machine import run_units
 from ..edgecheck import verdict_class
 from .args import parse
 
-MODULES = ["harness.corpus.basic"]
+MODULES = ["harness.corpus.basic", "harness.corpus.memory", "harness.corpus.nameclash", "harness.corpus.detlib"]
 
 
 def cfacts(rec, v):
